@@ -134,6 +134,10 @@ def worker(args):
         if op[0] not in DELETES: return
         if sx.latent_conflict(fixture, hist): return
         if any(o[0] == 'qdel' for o in hist[:-1]): return       # the cache is stale after a bulk delete, by design
+        if len([o for o in hist if o[0] == 'create' and o[2] is None]) >= 2:
+            # two pending objects with automatic keys: which of them gets which key depends on the flush order, and this
+            # check names rows by key
+            sub.count('histories_with_two_pending_automatic_keys_skipped'); return
         sub.count('deletions_judged'); sub.count('deletions:' + op[0])
         r = judge(env, fixture, hist)
         if x.obs[-1][0] == 'exc': sub.count('refusals_seen')
